@@ -10,6 +10,8 @@ import Driver.Sym
     T new <gcm|ctr> <params…> <ikmHex>                                   -> ok | err      (constructor guards)
     T dec <gcm|ctr> <params…> <ikmHex> <adHex> <ctHex>                   -> ok <ptHex> | reject | err
     T enc <gcm|ctr> <params…> <ikmHex> <adHex> <saltHex> <prefixHex> <ptHex> -> ok <ctHex> | err
+    T encsha <gcm|ctr> <params…> <ikmHex> <adHex> <saltHex> <prefixHex> <pt: hex or @len:seedhex>
+                                                                         -> ok <|ct|> <headerHex> <sha256(ct)> | err
     params  gcm: <keySize> <hkdfHash> <segSize> <firstSegmentOffset>
             ctr: <keySize> <hkdfHash> <tagAlg> <tagSize> <segSize> <firstSegmentOffset>
   `err` = the parameters are refused by the constructor (or salt/prefix have the wrong length).
@@ -56,6 +58,16 @@ def handle (toks : List String) : Option String :=
     | (none, [_, _, _, _]) => pure "err"
     | (some F, [ad, salt, pre, pt]) =>
       pure (okB (F.encrypt (← bytesOfTok? ad) (← bytesOfTok? salt) (← bytesOfTok? pre) (← bytesOfTok? pt)))
+    | _ => none
+  -- large streams (harness c07b, huge.go): the plaintext is a compact `@<len>:<seedhex>` token (`genTok?`), the answer
+  -- names the ciphertext by length, header and SHA-256 instead of megabytes of hex
+  | "encsha" :: rest => do
+    match ← fmt? rest with
+    | (none, [_, _, _, _]) => pure "err"
+    | (some F, [ad, salt, pre, pt]) =>
+      match F.encrypt (← bytesOfTok? ad) (← bytesOfTok? salt) (← bytesOfTok? pre) (← genTok? pt) with
+      | none => pure "err"
+      | some ct => pure s!"ok {ct.length} {tokOfBytes (ct.take F.headerLen)} {sha256Hex ct}"
     | _ => none
   | _ => none
 
